@@ -199,6 +199,129 @@ def check_glue(out, strs, sep, ce, cm, e, m, full=True):
             out.prop(exc is None and written == want_plain + "\n", "print:written", inp, f"print wrote {written!r} (raised {exc!r}); expected {want_plain + chr(10)!r}")
 
 
+# ---- glue with a highlighter ---------------------------------------------------------------------
+_HCONSOLES = {}
+
+
+def _rec_highlighter(base):
+    """a Highlighter that delegates to `base` and records plain text -> the spans it appended"""
+    from rich.highlighter import Highlighter
+
+    class Rec(Highlighter):
+        def __init__(self):
+            self.rec = {}
+
+        def highlight(self, text):
+            n0 = len(text._spans)
+            base.highlight(text)
+            self.rec[text.plain] = [(s.start, s.end, str(s.style)) for s in text._spans[n0:]]
+
+    return Rec()
+
+
+def _arg_highlighter():
+    from rich.highlighter import RegexHighlighter
+
+    class Letters(RegexHighlighter):
+        base_style = "hx."
+        highlights = [r"(?P<a>a+)", r"(?P<colon>:)|(?P<br>[\[\]])"]
+
+    return Letters()
+
+
+def hconsole_for(ce, cm, ch):
+    import io
+
+    from rich.console import Console
+    from rich.highlighter import ReprHighlighter
+
+    key = (ce, cm, ch)
+    if key not in _HCONSOLES:
+        rec = _rec_highlighter(ReprHighlighter())
+        con = Console(file=io.StringIO(), width=2000, color_system=None, force_terminal=False, highlight=ch,
+                      highlighter=rec, emoji=ce, markup=cm, legacy_windows=False)
+        _HCONSOLES[key] = (con, rec, _rec_highlighter(_arg_highlighter()))
+    return _HCONSOLES[key]
+
+
+def enc_hl_table(rec):
+    return f"{len(rec)}:" + ",".join(enc_str(k) + ">" + "/".join(f"{a}.{b}.{enc_str(st)}" for a, b, st in v) for k, v in rec.items())
+
+
+def o_hl_cover(which, plain):
+    """per character: the styles a FRESH highlighter of the same kind puts there, in the order it adds them"""
+    from rich.highlighter import ReprHighlighter
+    from rich.text import Text
+
+    t = Text(plain)
+    (ReprHighlighter() if which == "console" else _arg_highlighter()).highlight(t)
+    return cover([(s.start, s.end, str(s.style)) for s in t._spans], len(plain))
+
+
+def check_glue_h(out, strs, sep, ce, cm, ch, e, m, h, use_arg):
+    """Console.render_str / Console.print with a highlighter: is it applied (flags), on which text,
+    and who wins where a tag and the highlighter style the same character (the tag: its span comes later)."""
+    from rich.errors import MarkupError
+
+    con, rec_con, rec_arg = hconsole_for(ce, cm, ch)
+    emoji_on, markup_on = tri(e, ce), tri(m, cm)
+    s = strs[0]
+    flags = [enc_bool01(ce), enc_bool01(cm), enc_bool01(ch), enc_opt_bool(e), enc_opt_bool(m), enc_opt_bool(h)]
+    rec_con.rec.clear()
+    rec_arg.rec.clear()
+    kw = {"highlighter": rec_arg} if use_arg else {}
+    ans, tbl, res = recorded(lambda: con.render_str(s, emoji=e, markup=m, highlight=h, **kw))
+    out.cases.append(("mk_render_str_h", [enc_str(s)] + flags + [enc_bool01(use_arg), enc_table(tbl), enc_table(emoji_table(s)), enc_hl_table(rec_con.rec), enc_hl_table(rec_arg.rec)], ans,
+                      f"h{int(tri(h, ch))}a{int(use_arg)}m{int(markup_on)}", f"Console(emoji={ce},markup={cm},highlight={ch}).render_str({s!r}, emoji={e}, markup={m}, highlight={h}{', highlighter=A' if use_arg else ''})"))
+    inp = (s, ce, cm, ch, e, m, h, use_arg)
+    out.prop(not (isinstance(res, Exception) and not isinstance(res, MarkupError)), "render_str_h:exception-kind", inp, f"raised {type(res).__name__}")
+    o = o_render_str(s, emoji_on, markup_on)
+    if o[0] == "undecided":
+        out.note("oracle:undecided")
+    elif o[0] == "err":
+        out.prop(isinstance(res, MarkupError), "render_str_h:error_iff_nothing_to_close", inp, f"a closing tag has nothing to close but the result is {ans[:80]}")
+    elif out.prop(not isinstance(res, Exception), "render_str_h:error_iff_nothing_to_close", inp, f"raised {res!r}"):
+        _, plain, ann, _w = o
+        if out.prop(res.plain == plain, "render_str_h:plain", inp, f"plain {res.plain!r}, expected {plain!r}"):
+            hc = o_hl_cover("arg" if use_arg else "console", plain) if tri(h, ch) else [()] * len(plain)
+            want = [tuple(a) + tuple(b) for a, b in zip(hc, ann)]
+            out.prop(cover(spans_of(res), len(plain)) == want, "render_str_h:markup_wins_over_highlight", inp,
+                     f"spans {spans_of(res)!r}; expected per character (highlighter first, then the open tags) {want!r}")
+            out.note("hl:" + ("on" if tri(h, ch) else "off") + (":both" if any(a and b for a, b in zip(hc, ann)) else ""))
+    # ---- print
+    rec_con.rec.clear()
+    ans_p, tbl_p, res_p = recorded(lambda: con._collect_renderables(list(strs), sep, "\n", emoji=e, markup=m, highlight=h)[0])
+    etbl = {}
+    for x in strs:
+        etbl.update(emoji_table(x))
+    out.cases.append(("mk_print_h", [enc_str_list(list(strs)), enc_str(sep)] + flags + [enc_table(tbl_p), enc_table(etbl), enc_hl_table(rec_con.rec)], ans_p,
+                      f"n{len(strs)}h{int(ch and h is not False)}", f"print(*{list(strs)!r}, sep={sep!r}, emoji={e}, markup={m}, highlight={h}) on Console(emoji={ce},markup={cm},highlight={ch})"))
+    hl_on = ch and h is not False  # the code as it is: print's highlight=True is not passed on to render_str
+    want_plain, want_cov, err = "", [], None
+    ssep = strip_ctl(sep)
+    for i, x in enumerate(strs):
+        ox = o_render_str(x, emoji_on, markup_on)
+        if ox[0] == "undecided":
+            out.note("oracle:undecided")
+            return
+        if ox[0] == "err":
+            err = ox
+            break
+        if i and ssep:
+            want_plain += ssep
+            want_cov += [("",)] * len(ssep)
+        hc = o_hl_cover("console", ox[1]) if hl_on else [()] * len(ox[1])
+        want_plain += ox[1]
+        want_cov += [("",) + tuple(a) + tuple(b) for a, b in zip(hc, ox[2])]
+    inp = (tuple(strs), sep, ce, cm, ch, e, m, h)
+    if err is not None:
+        out.prop(isinstance(res_p, MarkupError), "print_h:error_iff_nothing_to_close", inp, f"a closing tag has nothing to close but print built {ans_p[:80]}")
+    elif out.prop(not isinstance(res_p, Exception), "print_h:error_iff_nothing_to_close", inp, f"print raised {res_p!r}"):
+        if out.prop(res_p.plain == want_plain, "print_h:plain", inp, f"plain {res_p.plain!r}, expected {want_plain!r}"):
+            out.prop(cover(spans_of(res_p), len(want_plain)) == want_cov, "print_h:markup_wins_over_highlight", inp,
+                     f"spans {spans_of(res_p)!r}; expected per character (join's empty style, highlighter, open tags) {want_cov!r}")
+
+
 def enc_bool01(b):
     return "1" if b else "0"
 
@@ -386,6 +509,62 @@ def o_style(text):
         else:
             return Style.null()
     return Style(color=fg, bgcolor=bg, link=link, **attrs)
+
+
+def o_fields(text):
+    """The settings a tag applies, from the style definition AS WRITTEN, as a plain dict (tri-state
+    attributes: True / False / absent, colour and background by lower-cased word, link verbatim) —
+    no Style object is involved, so neither Style.parse / normalize / __str__ nor Style.copy /
+    __add__ / combine can influence the expectation.
+    -> ('style', dict) | ('nonstyle', {}) (not a style definition: applies nothing) | ('undecided', None)"""
+    if text.strip() == "none":
+        return ("style", {})
+    d = {}
+    it = iter(text.split())
+    for w0 in it:
+        w = w0.lower()
+        if w == "on":
+            w2 = next(it, "").lower()
+            if not w2:
+                return ("nonstyle", {})
+            if not _is_color(w2):
+                return ("undecided", None) if _maybe_style(w2) else ("nonstyle", {})
+            d["bgcolor"] = w2
+        elif w == "not":
+            w2 = next(it, "")  # as written: Style.parse does not lower-case the word after `not`
+            if w2 not in ATTR:
+                return ("nonstyle", {})
+            d[ATTR[w2]] = False
+        elif w == "link":
+            w2 = next(it, "")
+            if not w2:
+                return ("nonstyle", {})
+            d["link"] = w2
+        elif w in ATTR:
+            d[ATTR[w]] = True
+        elif _is_color(w):
+            d["color"] = w
+        elif _maybe_style(w):
+            return ("undecided", None)
+        else:
+            return ("nonstyle", {})
+    return ("style", d)
+
+
+def o_compose(texts, memo=None):
+    """fields of the style a character is drawn with when the tags `texts` (as written, opening
+    order) are open: every later tag overrides exactly the settings it speaks about (a negated
+    attribute is a setting).  -> (dict | None when undecided, True when every tag is a style definition)"""
+    out = {}
+    allstyle = True
+    for t in texts:
+        k, d = o_fields(t)
+        if k == "undecided":
+            return None, False
+        if k == "nonstyle":
+            allstyle = False
+        out.update(d)
+    return out, allstyle
 
 
 def _maybe_style(w):
